@@ -3,7 +3,7 @@
    the source on every run; Model/Families.v enumerates the exact vertex set of the half-space
    intersection over Q(sqrt5). *)
 From Coq Require Import Reals QArith List Bool.
-Require Import Cox.Num.Ops Cox.Num.Qsqrt5 Cox.Geo.Vec Cox.Model.Families Cox.Gen.Planes Cox.Thm.FamiliesThm.
+Require Import Cox.Num.Ops Cox.Num.Qsqrt5 Cox.Geo.Vec Cox.Model.Families Cox.Gen.Planes Cox.Thm.FamiliesThm Cox.Thm.FamiliesComplete.
 Import ListNotations.
 
 (* every point the exact enumeration returns satisfies every half-space constraint (any number system) *)
@@ -12,6 +12,21 @@ Theorem C17_vertices_feasible :
     In x (exact_vertices O planes dists) -> feasible O planes dists x = true.
 Proof. intros T O. exact (exact_vertices_feasible O). Qed.
 Print Assumptions C17_vertices_feasible.
+
+(* ... and conversely (over R): every feasible point at which three planes with independent normals are tight is returned,
+   so the enumeration is exactly the vertex set of the half-space intersection, for plane tables of any size *)
+Theorem C17_vertices_complete :
+  forall planes dists (x : vec3 R) i j k p0 p1 p2,
+    (i < j)%nat -> (j < k)%nat ->
+    nth_error planes i = Some p0 -> nth_error planes j = Some p1 -> nth_error planes k = Some p2 ->
+    vdot Rops (fst p0) x = dist_of dists (snd p0) ->
+    vdot Rops (fst p1) x = dist_of dists (snd p1) ->
+    vdot Rops (fst p2) x = dist_of dists (snd p2) ->
+    vdet Rops (col3 0 (fst p0) (fst p1) (fst p2)) (col3 1 (fst p0) (fst p1) (fst p2)) (col3 2 (fst p0) (fst p1) (fst p2)) <> 0%R ->
+    feasible Rops planes dists x = true ->
+    In x (exact_vertices Rops planes dists).
+Proof. exact exact_vertices_complete. Qed.
+Print Assumptions C17_vertices_complete.
 
 (* ... and is the intersection of three of the planes *)
 Theorem C17_cramer :
